@@ -139,6 +139,7 @@ T = {
  # own mutants
  "m-C01b": ("C01", ["C01"], "internal/core/keys.go ReadKey: a read error only aborts the command when bytes were read with it (`err != nil && len(buf) > 0`): the loop spins on a failing terminal", 'an argument-reading command, then EOF/EIO at its argument read'),
  "m-C02": ("C02", ["C02"], "emacs.go selfInsert: a non-ASCII character is dropped when the buffer length is 15 mod 16", 'a non-ASCII character typed at buffer length 15, 31, ...'),
+ "m-C02b": ("C02", ["C02"], "readline.go: the keys read but not used yet are dropped at the start of every call (type-ahead after the accept key lost)", "two lines typed in one write: what follows the first RET belongs to the next call"),
  "m-C03": ("C03", ["C03"], "internal/keymap/dispatch.go: an exact match is only run for sequences longer than one key", 'a one-key binding that is also a prefix of longer ones'),
  "m-C04": ("C04", ["C04"], "internal/strutil/len.go LineSpan: rows = (len-1)/width (same edit as C04-s1, made independently)", 'prompt + cursor columns an exact multiple of the width'),
  "m-C05": ("C05", ["C05"], "internal/core/keys.go MatchedPrefix: mustWait is not set for prefixes of 3+ bytes; the dispatcher re-matches instead of waiting for more input", 'a bound sequence of 4+ bytes cut by a read boundary after its third byte'),
